@@ -28,10 +28,11 @@ def fns(file, fl, self_ty="", trait="", extra="", header=""):
 
 
 def fn(name, ret="", requires=(), ensures=(), mode="verify", closures=None, loops=None, subst=None,
-       attrs="", proof_prologue="", proof_epilogue=""):
+       attrs="", proof_prologue="", proof_epilogue="", iter_loops=None, label=""):
     return {"name": name, "ret": ret, "requires": list(requires), "ensures": list(ensures),
             "mode": mode, "closures": closures or {}, "loops": loops or {}, "subst": subst or [],
-            "attrs": attrs, "proof_prologue": proof_prologue, "proof_epilogue": proof_epilogue}
+            "attrs": attrs, "proof_prologue": proof_prologue, "proof_epilogue": proof_epilogue,
+            "iter_loops": iter_loops or {}, "label": label}
 
 
 def table(what, file, name):
@@ -69,7 +70,7 @@ PARSE_STREAM_ENSURES = [
 M_OF_COMB = "meaning_of_ctor(parse_table({c}).1)"
 
 
-MODULES = ["core", "optable", "entries", "gen", "guards", "names", "det", "builder", "parse"]
+MODULES = ["core", "optable", "entries", "gen", "guards", "names", "det", "builder", "parse", "sep"]
 
 
 def common_units():
@@ -145,7 +146,10 @@ def _assume(units):
     for un in units:
         un = dict(un)
         if un.get("kind") == "fns":
-            un["fns"] = [dict(f, mode="assumed", closures={}, proof_prologue="", proof_epilogue="", subst=[]) for f in un["fns"]]
+            un["fns"] = [dict(f, mode="assumed", closures={}, proof_prologue="", proof_epilogue="", iter_loops={},
+                              subst=[x for x in f.get("subst", []) if x.get("sig")]) for f in un["fns"]]
+        if un.get("kind") == "resolved":
+            un["mode"] = "assumed"
         out.append(un)
     return out
 
@@ -306,6 +310,7 @@ def gen_units():
     u.append(ty(F_JO, "JoinOutput"))
     u.append(raw("specs_gen", _read("specs_gen.rs")))
     u.append(raw("specs_stack", _read("specs_stack.rs")))
+    u += _assume(sep_fn_units())   # verified in module `sep`
     u.append(fns(F_JO, [
         fn("new", "r", ensures=["r.expr == expr", "r.branch_index == branch_index", "r.expr_index == expr_index"]),
     ], self_ty="ActionExprPos"))
@@ -347,16 +352,16 @@ def gen_units():
                   {"find": "(0..self.branch_count).map(construct_result_name).collect()",
                    "replace": "result_name_vec(self.branch_count)",
                    "why": "Verus has no spec for Range::map::collect; the helper (verified in this file) is the same loop written out and calls the real construct_result_name"}]),
-        fn("separate_block_expr", "r", mode="assumed",
-           ensures=["sep_ok(*inner_expr, branch_index, expr_index, r)"]),
-        # C01/C11/C17: what one action contributes to the definition stream and to the step stream
+        # C01/C10/C11/C17: what one action contributes to the definition stream and to the step stream
         fn("generate_def_and_step_streams", "r",
            requires=["action_expr_pos is Some ==> printable(action_expr_pos->0.expr.expr)"],
            ensures=[
                "action_expr_pos is None ==> opt_view(r.0) == opt_view(prev_def_stream) && r.1@ == prev_step_stream@",
-               "action_expr_pos is Some ==> opt_view(r.0) == opt_append(opt_view(prev_def_stream), action_defs(action_expr_pos->0.expr.expr, action_expr_pos->0.branch_index, action_expr_pos->0.expr_index))",
-               "action_expr_pos is Some ==> r.1@ == step_toks(self.config.is_async, prev_step_stream@, printed(action_expr_pos->0.expr.expr, action_expr_pos->0.branch_index, action_expr_pos->0.expr_index))",
+               "action_expr_pos is Some ==> exists|x: ActionExpr| #[trigger] printed_as(action_expr_pos->0.expr.expr, x, action_expr_pos->0.branch_index, action_expr_pos->0.expr_index) "
+               "&& gdss_ok(self.config.is_async, opt_view(prev_def_stream), prev_step_stream@, action_expr_pos->0.expr.expr, action_expr_pos->0.branch_index, action_expr_pos->0.expr_index, x, r)",
            ],
+           subst=[{"find": "self.separate_block_expr(%s_expr," % n, "replace": "self.separate_block_expr_%s(%s_expr," % (n, n),
+                   "why": "call of the monomorphised copy (ExprType is fixed by the match arm)"} for n in ("process", "err", "initial")],
            closures=dict([(str(k), {"params": ["TokenStream"], "ret": "(r: TokenStream)",
                                      "ensures": ["r@ == prev@ + opt_toks(def_stream)"]}) for k in (0, 1, 3)]
                          + [("2", {"params": ["&[Expr]"], "ret": "(r: Option<&Expr>)",
@@ -385,7 +390,7 @@ def gen_units():
                "stack_wf(r.step_streams@)",
                "action_expr_pos->0.expr.action.move_type == MoveType::Wrap ==> r.step_streams@.len() == step_acc.step_streams@.len() + 1 && r.step_streams@.last().0@ == seq![Tok::Ident(construct_internal_value_name_spec())] && r.step_streams@[r.step_streams@.len() - 2].1->0.expr == action_expr_pos->0.expr",
                "action_expr_pos->0.expr.action.move_type == MoveType::Unwrap ==> r.step_streams@.len() == step_acc.step_streams@.len() - 1 && r.step_streams@.last().0@ == wrapped_top(self.config.is_async, step_acc.step_streams@)",
-               "action_expr_pos->0.expr.action.move_type == MoveType::None ==> r.step_streams@.len() == step_acc.step_streams@.len() && r.step_streams@.last().0@ == step_toks(self.config.is_async, step_acc.step_streams@.last().0@, printed(action_expr_pos->0.expr.expr, action_expr_pos->0.branch_index, action_expr_pos->0.expr_index))",
+               "action_expr_pos->0.expr.action.move_type == MoveType::None ==> r.step_streams@.len() == step_acc.step_streams@.len() && (exists|x: ActionExpr| #[trigger] printed_as(action_expr_pos->0.expr.expr, x, action_expr_pos->0.branch_index, action_expr_pos->0.expr_index) && (hoists(action_expr_pos->0.expr.expr) ==> x != action_expr_pos->0.expr.expr) && r.step_streams@.last().0@ == step_toks(self.config.is_async, step_acc.step_streams@.last().0@, x))",
            ]),
     ], self_ty="JoinOutput"))
     u.append(fns(F_UTILS, [
@@ -501,6 +506,82 @@ def parse_units():
     return u
 
 
+def sep_units():
+    u = []
+    u.append(ty(F_JO, "ActionExprPos"))
+    u.append(ty(F_JO, "StepAcc"))
+    u.append(ty(F_JO, "JoinOutput"))
+    u.append(raw("specs_gen", _read("specs_gen.rs")))
+    u.append(raw("specs_stack", _read("specs_stack.rs")))
+    u.append(raw("specs_sep", _read("specs_sep.rs")))
+    u.append(fns(F_UTILS, [fn("is_block_expr", "r", ensures=["r == (expr is Block)"])]))
+    return u + sep_fn_units()
+
+
+def sep_fn_units():
+    """join_output.rs::separate_block_expr, monomorphised per instantiation and verified (R13 + R14)"""
+    u = []
+
+    def mono(T, suffix, extra_ensures, replaceable_call=None):
+        sub = [{"find": "fn separate_block_expr<ExprType: InnerExpr + Clone>(", "replace": "fn separate_block_expr_%s<'x>(" % suffix,
+                "why": "monomorphised at the instantiation ExprType = %s (one of the three call sites in generate_def_and_step_streams)" % T, "sig": True},
+               {"find": "inner_expr: &ExprType", "replace": "inner_expr: &'x ExprType",
+                "why": "names the elided lifetime of the argument so that the closure types written out by R7 can refer to it (no semantic change)", "sig": True},
+               {"find": "ExprType", "replace": T, "why": "monomorphisation", "all": True, "sig": True}]
+        if replaceable_call:
+            sub.append({"find": "inner_expr.is_replaceable()", "replace": "%s(inner_expr)" % replaceable_call,
+                        "why": "static dispatch resolved by R14: %s does not override the provided method, Verus cannot see a provided body through the trait" % T})
+        AE = {"ProcessExpr": "Process", "ErrExpr": "Err", "InitialExpr": "Initial"}[T]
+        return fn("separate_block_expr", "r", label="JoinOutput::separate_block_expr_%s" % suffix,
+                  attrs="#[verifier::loop_isolation(false)]\n", proof_prologue="broadcast use lemma_sep_step;",
+                  ensures=["sep_ok_obs(*inner_expr, branch_index, expr_index, r)",
+                           # the same fact over ActionExpr (names the printed form for the caller's contract)
+                           "printed_as(ActionExpr::%s(*inner_expr), ActionExpr::%s(match r.1 { Some(q) => q, None => *inner_expr }), branch_index, expr_index)" % (AE, AE),
+                           ] + extra_ensures,
+                  subst=sub,
+                  closures={
+                      "0": {"params": ["&'x [Expr]"], "ret": "(r: Option<(TokenStream, Option<%s>)>)" % T,
+                            "requires": ["exprs@ =~= inner_expr.operands()", "exprs@.len() > 0", "!must_not_hoist(inner_expr.ctor_of())"],
+                            "ensures": ["match r { Some(p) => sep_ok_obs(*inner_expr, branch_index, expr_index, (Some(p.0), p.1)), None => !any_block(inner_expr.operands()) }"]},
+                      "1": {"params": ["(usize, &'x Expr)"], "ret": "(r: (Option<(TokenStream, Expr)>, Option<&'x Expr>))",
+                            "ensures": ["sep_f_ok(branch_index, expr_index, __c1p0.0, __c1p0.1, r)"]},
+                      "2": {"params": ["(Option<TokenStream>, Vec<Expr>)", "(Option<(TokenStream, Expr)>, Option<&'x Expr>)"],
+                            "ret": "(r: (Option<TokenStream>, Vec<Expr>))",
+                            "requires": ["(__c2p1.0 is Some) != (__c2p1.1 is Some)"],
+                            "ensures": ["sep_g_ok(__c2p0, __c2p1, r)"]},
+                      "3": {"params": ["TokenStream"], "ret": "(r: TokenStream)", "ensures": ["r@ == def_acc@ + def@"]},
+                      "4": {"params": ["TokenStream"], "ret": "(r: (TokenStream, Option<%s>))" % T,
+                            "ensures": ["r.0 == def",
+                                        "r.1 is Some ==> r.1->0.ctor_of() == inner_expr.ctor_of()",
+                                        "(replace_exprs@.len() == inner_expr.operands().len() && replace_exprs@.len() > 0 && !must_not_hoist(inner_expr.ctor_of())) ==> (r.1 is Some && r.1->0.operands() =~= replace_exprs@)"]},
+                      "5": {"params": ["(TokenStream, Option<%s>)" % T], "ret": "(r: (Option<TokenStream>, Option<%s>))" % T,
+                            "ensures": ["r.0 == Some(__c5p0.0)", "r.1 == __c5p0.1"]},
+                  },
+                  iter_loops={"0": {"invariant": [
+                      "__i <= __it.len()", "__it@ == exprs@",
+                      "sep_acc_ok(exprs@, branch_index, expr_index, __i as int, __acc)",
+                      "forall|a: (usize, &'x Expr)| __f.requires((a,))",
+                      "forall|a: (usize, &'x Expr), r: (Option<(TokenStream, Expr)>, Option<&'x Expr>)| __f.ensures((a,), r) ==> sep_f_ok(branch_index, expr_index, a.0, a.1, r)",
+                      "forall|a: (Option<TokenStream>, Vec<Expr>), m: (Option<(TokenStream, Expr)>, Option<&'x Expr>)| ((m.0 is Some) != (m.1 is Some)) ==> __g.requires((a, m))",
+                      "forall|a: (Option<TokenStream>, Vec<Expr>), m: (Option<(TokenStream, Expr)>, Option<&'x Expr>), r: (Option<TokenStream>, Vec<Expr>)| __g.ensures((a, m), r) ==> sep_g_ok(a, m, r)",
+                  ], "body_prologue": "proof { lemma_any_block_upto_step(exprs@, __i as int); }"}})
+    for T, f_impl, nm in (("ErrExpr", F_EE, "err_is_replaceable"), ("InitialExpr", F_IE, "initial_is_replaceable")):
+        u.append({"kind": "resolved", "trait_file": F_EMOD, "trait_": "InnerExpr", "method": "is_replaceable",
+                  "impl_file": f_impl, "self_ty": T, "name": nm, "ret": "r",
+                  # C11: `<|`, `<=` and the initial value always take part in hoisting
+                  "ensures": ["r"]})
+    u.append(fns(F_JO, [
+        mono("ProcessExpr", "process", [
+            # C11: it does hoist whenever the operator takes expression operands and one of them is a block ...
+            "must_hoist(inner_expr.ctor_of(), inner_expr.operands().len() as int) && any_block(inner_expr.operands()) ==> r.0 is Some",
+            # ... and never for member access
+            "must_not_hoist(inner_expr.ctor_of()) ==> r.0 is None"]),
+        mono("ErrExpr", "err", ["any_block(inner_expr.operands()) ==> r.0 is Some"], "err_is_replaceable"),
+        mono("InitialExpr", "initial", ["any_block(inner_expr.operands()) ==> r.0 is Some"], "initial_is_replaceable"),
+    ], self_ty="JoinOutput"))
+    return u
+
+
 def build_plan(repo, module):
     u = common_units()
     optargs = {}
@@ -515,6 +596,9 @@ def build_plan(repo, module):
         u.append(raw("lemma", _read("lemma_det.rs")))
     elif module == "names":
         u.append(raw("lemma", _read("lemma_names.rs")))
+    elif module == "sep":
+        u += _assume(core_units())
+        u += sep_units()
     elif module == "parse":
         u += _assume(core_units())
         u += parse_units()
@@ -562,11 +646,11 @@ OBLIGATIONS = {
             ("core", "ProcessExpr::to_tokens")],
     "C14": [("parse", "parse_until_suffix"), ("det", "lemma_first_match_is_longest"), ("optable", "lemma_operator_tables")],
     "C16": [("guards", "new_init_lazy_branches"), ("guards", "new_init_transpose")],
-    "C17": [("names", "lemma_names_never_clash"), ("names", "lemma_names_table"), ("names", "lemma_name3_injective"), ("names", "lemma_name1_injective"), ("names", "lemma_distinguishable"), ("names", "lemma_names_strlits"), ("gen", "JoinOutput::generate_def_and_step_streams")] + [("core", n) for n in ['construct_var_name', 'construct_step_results_name', 'construct_result_name', 'construct_thread_builder_name', 'construct_inspect_fn_name', 'construct_spawn_tokio_fn_name', 'construct_results_name', 'construct_handler_name', 'construct_internal_value_name', 'construct_thread_builder_fn_name', 'construct_expr_wrapper_name']],
+    "C17": [("sep", "JoinOutput::separate_block_expr_process"), ("sep", "JoinOutput::separate_block_expr_err"), ("sep", "JoinOutput::separate_block_expr_initial"), ("sep", "lemma_sep_step")] + [("names", "lemma_names_never_clash"), ("names", "lemma_names_table"), ("names", "lemma_name3_injective"), ("names", "lemma_name1_injective"), ("names", "lemma_distinguishable"), ("names", "lemma_names_strlits"), ("gen", "JoinOutput::generate_def_and_step_streams")] + [("core", n) for n in ['construct_var_name', 'construct_step_results_name', 'construct_result_name', 'construct_thread_builder_name', 'construct_inspect_fn_name', 'construct_spawn_tokio_fn_name', 'construct_results_name', 'construct_handler_name', 'construct_internal_value_name', 'construct_thread_builder_fn_name', 'construct_expr_wrapper_name']],
     "C20": [("core", n) for n in ['construct_var_name', 'construct_step_results_name', 'construct_result_name', 'construct_thread_builder_name', 'construct_inspect_fn_name', 'construct_spawn_tokio_fn_name', 'construct_results_name', 'construct_handler_name', 'construct_internal_value_name', 'construct_thread_builder_fn_name', 'construct_expr_wrapper_name']],
-    "C10": [("core", "ProcessExpr::is_replaceable"), ("core", "ProcessExpr::replace_inner_exprs"), ("core", "ErrExpr::replace_inner_exprs"),
+    "C10": [("sep", "JoinOutput::separate_block_expr_process"), ("sep", "JoinOutput::separate_block_expr_err"), ("sep", "JoinOutput::separate_block_expr_initial"), ("sep", "err_is_replaceable"), ("sep", "initial_is_replaceable"), ("sep", "lemma_sep_step"), ("sep", "lemma_defs_empty"), ("sep", "lemma_any_block_upto_step")] + [("core", "ProcessExpr::is_replaceable"), ("core", "ProcessExpr::replace_inner_exprs"), ("core", "ErrExpr::replace_inner_exprs"),
             ("gen", "JoinOutput::generate_def_and_step_streams"), ("gen", "JoinOutput::wrap_last_step_stream")],
-    "C11": [("core", "ProcessExpr::is_replaceable"), ("core", "ProcessExpr::inner_exprs"),
+    "C11": [("sep", "JoinOutput::separate_block_expr_process"), ("sep", "JoinOutput::separate_block_expr_err"), ("sep", "JoinOutput::separate_block_expr_initial"), ("sep", "err_is_replaceable"), ("sep", "initial_is_replaceable"), ("sep", "lemma_sep_step"), ("sep", "lemma_defs_empty"), ("sep", "lemma_any_block_upto_step")] + [("core", "ProcessExpr::is_replaceable"), ("core", "ProcessExpr::inner_exprs"),
             ("core", "ProcessExpr::replace_inner_exprs"), ("core", "ErrExpr::inner_exprs"),
             ("core", "ErrExpr::replace_inner_exprs"), ("core", "InitialExpr::inner_exprs"),
             ("core", "InitialExpr::replace_inner_exprs"), ("core", "ActionExpr::inner_exprs"),
@@ -585,4 +669,8 @@ def reused_contracts():
                 if f.get("mode") != "assumed":
                     out[lab] = "core"
     out["ActionGroup::parse_stream"] = "parse"
+    for suffix in ("process", "err", "initial"):
+        out["JoinOutput::separate_block_expr_%s" % suffix] = "sep"
+    out["err_is_replaceable"] = "sep"
+    out["initial_is_replaceable"] = "sep"
     return out
